@@ -139,15 +139,24 @@ func written(list []ast.Stmt) map[string]bool {
 // operands: the printed form of every sub-expression of e that names storage (identifiers, selector chains, index expressions)
 func operands(e ast.Expr) []string {
 	var out []string
-	ast.Inspect(e, func(n ast.Node) bool {
-		switch x := n.(type) {
-		case *ast.Ident:
-			out = append(out, x.Name)
-		case *ast.SelectorExpr, *ast.IndexExpr:
-			out = append(out, printNode(x.(ast.Expr)))
-		}
-		return true
-	})
+	var walk func(e ast.Expr)
+	walk = func(e ast.Expr) {
+		ast.Inspect(e, func(n ast.Node) bool {
+			switch x := n.(type) {
+			case *ast.Ident:
+				out = append(out, x.Name)
+			case *ast.SelectorExpr:
+				// the selected field's name is not an operand of its own
+				out = append(out, printNode(x))
+				walk(x.X)
+				return false
+			case *ast.IndexExpr:
+				out = append(out, printNode(x))
+			}
+			return true
+		})
+	}
+	walk(e)
 	return out
 }
 
@@ -447,4 +456,173 @@ func splitSingleExit(c *ast.FuncDecl) {
 		return
 	}
 	c.Body.List = append(append([]ast.Stmt{}, l[:n-3]...), f.Decls[0].(*ast.FuncDecl).Body.List...)
+}
+
+// defaultAsTrailer: a function that ends in `switch … { case …: return …; default: S }`, every other clause ending in a
+// return, is presented as the switch without the default followed by S (the form `switch …{…}; return X`)
+func defaultAsTrailer(c *ast.FuncDecl) {
+	l := c.Body.List
+	if len(l) == 0 {
+		return
+	}
+	sw, ok := l[len(l)-1].(*ast.SwitchStmt)
+	if !ok {
+		return
+	}
+	di := -1
+	for i, cl := range sw.Body.List {
+		cc := cl.(*ast.CaseClause)
+		if cc.List == nil {
+			di = i
+			continue
+		}
+		if len(cc.Body) == 0 {
+			return
+		}
+		if _, ret := cc.Body[len(cc.Body)-1].(*ast.ReturnStmt); !ret {
+			return
+		}
+	}
+	if di < 0 {
+		return
+	}
+	def := sw.Body.List[di].(*ast.CaseClause)
+	for _, st := range def.Body {
+		bad := false
+		ast.Inspect(st, func(n ast.Node) bool {
+			if b, ok := n.(*ast.BranchStmt); ok && (b.Tok == token.BREAK || b.Tok == token.FALLTHROUGH) {
+				bad = true
+			}
+			return true
+		})
+		if bad {
+			return
+		}
+	}
+	sw.Body.List = append(append([]ast.Stmt{}, sw.Body.List[:di]...), sw.Body.List[di+1:]...)
+	c.Body.List = append(c.Body.List, def.Body...)
+}
+
+// ---- case order -----------------------------------------------------------------------------------
+// An expression switch over pairwise distinct constant labels without fallthrough means the same in any clause order.  The
+// generators emit tables in source order and some proofs pin them.  The base tree's label order of every such switch is
+// recorded beside the locals (key "<function>#cases"); in a changed function a switch with the same label set is presented
+// in the recorded order (clauses by their earliest label, labels inside a clause likewise).
+
+func literalSwitchLabels(sw *ast.SwitchStmt) ([][]string, bool) {
+	if sw.Tag == nil {
+		return nil, false
+	}
+	seen := map[string]bool{}
+	var out [][]string
+	for _, cl := range sw.Body.List {
+		cc := cl.(*ast.CaseClause)
+		var ls []string
+		for _, e := range cc.List {
+			bl, ok := e.(*ast.BasicLit)
+			if !ok || seen[bl.Value] {
+				return nil, false
+			}
+			seen[bl.Value] = true
+			ls = append(ls, bl.Value)
+		}
+		for _, st := range cc.Body {
+			if b, ok := st.(*ast.BranchStmt); ok && b.Tok == token.FALLTHROUGH {
+				return nil, false
+			}
+		}
+		if cc.List != nil {
+			out = append(out, ls)
+		}
+	}
+	return out, len(out) > 0
+}
+
+func caseOrders(fd *ast.FuncDecl) []string {
+	var out []string
+	if fd.Body == nil {
+		return nil
+	}
+	ast.Inspect(fd.Body, func(n ast.Node) bool {
+		if sw, ok := n.(*ast.SwitchStmt); ok {
+			if ls, ok := literalSwitchLabels(sw); ok {
+				var flat []string
+				for _, l := range ls {
+					flat = append(flat, l...)
+				}
+				out = append(out, strings.Join(flat, "\x1f"))
+			}
+		}
+		return true
+	})
+	return out
+}
+
+func restoreCaseOrder(key string, c *ast.FuncDecl) {
+	if baseLocals == nil {
+		return
+	}
+	base := baseLocals[key+"#cases"]
+	if len(base) == 0 {
+		return
+	}
+	ast.Inspect(c.Body, func(n ast.Node) bool {
+		sw, ok := n.(*ast.SwitchStmt)
+		if !ok {
+			return true
+		}
+		ls, ok := literalSwitchLabels(sw)
+		if !ok {
+			return true
+		}
+		cur := map[string]bool{}
+		cnt := 0
+		for _, l := range ls {
+			for _, x := range l {
+				cur[x] = true
+				cnt++
+			}
+		}
+		for _, b := range base {
+			labels := strings.Split(b, "\x1f")
+			if len(labels) != cnt {
+				continue
+			}
+			pos := map[string]int{}
+			same := true
+			for i, x := range labels {
+				if !cur[x] {
+					same = false
+					break
+				}
+				pos[x] = i
+			}
+			if !same {
+				continue
+			}
+			first := func(cc *ast.CaseClause) int {
+				if cc.List == nil {
+					return 1 << 30
+				}
+				m := 1 << 30
+				for _, e := range cc.List {
+					if p := pos[e.(*ast.BasicLit).Value]; p < m {
+						m = p
+					}
+				}
+				return m
+			}
+			for _, cl := range sw.Body.List {
+				cc := cl.(*ast.CaseClause)
+				sort.SliceStable(cc.List, func(i, j int) bool {
+					return pos[cc.List[i].(*ast.BasicLit).Value] < pos[cc.List[j].(*ast.BasicLit).Value]
+				})
+			}
+			sort.SliceStable(sw.Body.List, func(i, j int) bool {
+				return first(sw.Body.List[i].(*ast.CaseClause)) < first(sw.Body.List[j].(*ast.CaseClause))
+			})
+			break
+		}
+		return true
+	})
 }
